@@ -217,7 +217,7 @@ func zzPooled(free []byte) {
 	}
 }
 
-//verif:harness property=C37 mode=bv unwind=40 lens=0..2 thorough_lens=0..3 steps=40000000
+//verif:harness property=C37 mode=bv unwind=40 lens=0..2 thorough_lens=0..2 steps=40000000
 func ZZ_C37_Lex_LLEN() {
 	zzLexAndCheck(zzNondetBytes(LEN))
 }
@@ -227,12 +227,12 @@ func ZZ_C37_LexInTemplate_LLEN() {
 	zzLexAndCheck(zzWithPrefix("\"\\(", zzNondetBytes(LEN)))
 }
 
-//verif:harness property=C37 mode=bv unwind=40 lens=1..4 thorough_lens=1..5 steps=40000000
+//verif:harness property=C37 mode=bv unwind=40 lens=1..4 thorough_lens=1..4 steps=40000000
 func ZZ_C37_LexInBlockComment_LLEN() {
 	zzLexAndCheck(zzWithPrefix("/*", zzNondetBytes(LEN)))
 }
 
-//verif:harness property=C37 mode=bv unwind=40 lens=1..3 thorough_lens=1..4 steps=40000000
+//verif:harness property=C37 mode=bv unwind=40 lens=1..3 thorough_lens=1..3 steps=40000000
 func ZZ_C37_LexInString_LLEN() {
 	zzLexAndCheck(zzWithPrefix("\"", zzNondetBytes(LEN)))
 }
